@@ -26,9 +26,10 @@ from .. import tlc
 MICRO = 1_000_000          # micro-units of the larger die side
 MARGIN = 100               # a disc "fits" when it leaves at least 1e-4 of the die side (quantifier, strict side)
 # scale of one micro-unit: die side 1.0 (the tool's default die), 1e6 as YAML integers, 1e5, 333333.3, 1e3, 1e9
-EMBS = {"unit": Emb("unit", F(1, MICRO)), "ten": Emb("ten", F(10, MICRO)), "int": EMBEDDINGS["int"], "dec": EMBEDDINGS["dec"],
+EMBS = {"unit": Emb("unit", F(1, MICRO)), "ten": Emb("ten", F(10, MICRO)), "e4": Emb("e4", F(1, 10 ** 4 * MICRO)),
+        "e6": Emb("e6", F(1, 10 ** 6 * MICRO)), "int": EMBEDDINGS["int"], "dec": EMBEDDINGS["dec"],
         "third": EMBEDDINGS["third"], "tiny": EMBEDDINGS["tiny"], "big": EMBEDDINGS["big"]}
-EMB_ORDER = ["unit", "int", "dec", "third", "tiny", "big"]
+EMB_ORDER = ["unit", "int", "dec", "third", "tiny", "big", "e4", "e6"]      # die side 1, 1e6, 1e5, 3.3e5, 1e3, 1e9, 1e-4, 1e-6
 WEIGHTS = [1, 1, 2, 0.5, 2.5, 1 / 3, 10]
 
 
@@ -143,6 +144,32 @@ def random_case(rng: random.Random, emb: str) -> dict:
             "die": [wq, hq], "mods": mods, "nets": nets}
 
 
+def exact_fit_case(rng: random.Random, emb: str) -> dict:
+    """A movable module whose disc fits EXACTLY in the die: radius == half the smaller side (in height only, in width
+    only, or in both for a square die).  It has no room to move in that dimension, so every module ends on the centre
+    line there; nobody may be pushed off it."""
+    other = 2 * rng.randint(MICRO // 4, MICRO // 2 - 1)
+    wq, hq = rng.choice([(MICRO, other), (other, MICRO), (MICRO, MICRO)])
+    side = min(wq, hq)
+    mods = [{"kind": "soft", "area": math.pi * (side / 2) ** 2, "fit": side}]
+    n = rng.randint(4, 8)
+    for _ in range(n):
+        r = rng.uniform(0.03, 0.3) * side / 2
+        mods.append({"kind": "soft", "area": math.pi * r * r})
+    for _ in range(rng.choice([0, 0, 1, 2])):
+        x, y = rng.randint(0, wq), rng.randint(0, hq)
+        mods.append({"kind": "fixed", "terminal": 1, "center": [x, y]} if rng.random() < 0.5 else
+                    {"kind": "fixed", "rects": [[x // 2 * 2, y // 2 * 2, x // 2 * 2 + 2 * (MICRO // 100), y // 2 * 2 + 2 * (MICRO // 100)]]})
+    rng.shuffle(mods)
+    m = len(mods)
+    order = list(range(1, m + 1))
+    rng.shuffle(order)
+    nets = [[rng.choice(WEIGHTS), [order[rng.randrange(j)], order[j]]] for j in range(1, m)]
+    nets += [[1, rng.sample(range(1, m + 1), 3)] for _ in range(rng.randint(0, 3))]
+    return {"src": "rnd", "motif": "exact_fit", "emb": emb, "seed": rng.randrange(1 << 30), "trials": rng.choice([1, 1, 2, 3]),
+            "die": [wq, hq], "mods": mods, "nets": nets}
+
+
 def collinear_case(rng: random.Random, emb: str) -> dict:
     """Movable blocks wired ONLY to fixed pins (terminals and small fixed blocks) that all lie on one slanted line not
     through the die centre, the mass-weighted mean of the x pulls exactly at the die centre, one block much bigger
@@ -210,7 +237,9 @@ def build_tree(case: dict, emb: Emb) -> dict:
     for i, m in enumerate(case["mods"]):
         d: dict = {}
         if m["kind"] == "soft":
-            a = emb.area(m["area"])
+            # "fit": the disc is exactly as wide as that die side: area = pi * (side/2)^2 computed from the very number the
+            # die gets, so that the code's own sqrt(area/pi) gives a span of 0 (or one unit in the last place)
+            a = math.pi * (float(emb.length(m["fit"])) / 2) ** 2 if "fit" in m else emb.area(m["area"])
             if "split" in m:
                 p, q = m["split"]
                 d["area"] = {"_": a * (q - p) / q, "dsp": a * p / q}
@@ -244,11 +273,15 @@ class _Sampler:
         self.worst = None
         self.last = []
         self.n = 0
+        self.abs_skip = 0
 
     def add(self, before, after, span, fixed):
         j = self.n
         self.n += 1
         exc = max((abs(after[i]) - span[i] for i in range(len(after)) if not fixed[i]), default=0.0)
+        # signature of normalize's ABSOLUTE "at the centre" test (|x| <= 10e-10): a node it skipped ends beyond its span
+        if any(not fixed[i] and abs(before[i]) <= 10e-10 and abs(after[i]) - span[i] > 1e-6 * max(span) for i in range(len(after))):
+            self.abs_skip = 1
         rec = (j, before, after, exc)
         if j <= 3 or (j & (j - 1)) == 0:
             self.kept[j] = rec
@@ -338,6 +371,7 @@ def run_case(case: dict) -> dict:
             state["span"] = None
             res = orig_sld(adj, mass, size, initial, fixed)
             coord, wl, niter = res
+            state["abs_skip"] = max(state.get("abs_skip", 0), max((smp.abs_skip for smp in cur), default=0))
             trials.append({"dims": [smp.sample() for smp in cur], "ncalls": [smp.n for smp in cur],
                            "coord": [list(coord[0]), list(coord[1])], "wl": wl, "niter": list(niter)})
             return res
@@ -398,7 +432,7 @@ def run_case(case: dict) -> dict:
     return {"status": "ok", "steps": steps, "half": [wq // 2, hq // 2], "kind": kind, "area": area0, "rad": rad,
             "rects": rects0, "p0": p0, "edges": edges0, "trials": case["trials"], "events": events,
             "final": {"pos": pos, "rects": rects1, "area": area1, "edges": edges1},
-            "info": {"calls": state["calls"], "max_excess": max_exc, "trials_seen": len(trials),
+            "info": {"abs_skip": state.get("abs_skip", 0), "calls": state["calls"], "max_excess": max_exc, "trials_seen": len(trials),
                      "niter": [t["niter"] for t in trials]}}
 
 
@@ -409,7 +443,7 @@ def decide(ctx: Ctx, cases: list[dict]):
     t0 = time.time()
     results = run_cases(run_case, cases, nproc=16, case_timeout=600)
     ctx.extra["real_runs_wall_s"] = round(time.time() - t0, 1)
-    traces, owner = {}, {}
+    traces, owner, skipflag = {}, {}, {}
     st = ctx.extra.setdefault("runs", {"total": 0, "returned": 0, "no_result": 0, "trials_observed": 0,
                                        "normalize_calls_observed": 0, "events_judged": 0, "without_step_events": 0,
                                        "max_excess_over_span_micro_units": 0.0})
@@ -444,6 +478,7 @@ def decide(ctx: Ctx, cases: list[dict]):
             val["id"] = key
             traces[key] = val
             owner[key] = c
+            skipflag[key] = info["abs_skip"]
     verdicts = tlc.validate_traces(ctx, "SpectralTrace", "SpectralTrace", list(traces.values()), chunk=1500)
     for key, v in verdicts.items():
         t, c = traces[key], owner[key]
@@ -457,7 +492,8 @@ def decide(ctx: Ctx, cases: list[dict]):
                 detail["final"] = t["final"]["pos"]
             else:
                 detail["a"], detail["b"] = e["a"], e["b"]
-            ctx.violation(clause, c, detail, {"emb": c["emb"], "src": c["src"], "event": e["t"], "motif": c.get("motif", "")})
+            ctx.violation(clause, c, detail, {"emb": c["emb"], "src": c["src"], "event": e["t"], "motif": c.get("motif", ""),
+                                              "abs_threshold_skip": skipflag[key]})
         for (l, clause) in v["drift"]:
             ctx.model_drift(f"{clause} at {t['events'][l - 1]['t']}")
     for t in list(traces.values())[:2]:
@@ -501,6 +537,9 @@ def run(ctx: Ctx) -> int:
     col_embs = ["unit", "ten", "unit", "ten", "unit", "tiny"]
     cases += [collinear_case(rng, col_embs[i % len(col_embs)]) for i in range(ncol)]
     ctx.extra["cases_collinear_pins_motif"] = ncol
+    nfit = 32 if quick else 400
+    cases += [exact_fit_case(rng, EMB_ORDER[i % len(EMB_ORDER)]) for i in range(nfit)]
+    ctx.extra["cases_exact_fit_motif"] = nfit
     decide(ctx, cases)
     ctx.extra["embeddings"] = EMB_ORDER
     ctx.assumptions += [
